@@ -564,6 +564,9 @@ func (m *srcMeta) GetAllPartition(ctx context.Context, filter coreapi.PartitionF
 		}
 		sort.Strings(names)
 		for _, n := range names {
+			if strings.Contains(n, "_default") { // EtcdOp.GetAllPartition never lists the default partition
+				continue
+			}
 			pi := &pb.PartitionInfo{PartitionID: c.Parts[n][0], PartitionName: n, CollectionId: c.ID, State: pb.PartitionState_PartitionCreated}
 			if filter != nil && filter(pi) {
 				continue
